@@ -167,6 +167,7 @@ def denote(doc, person_split):
     macros = dict(MONTHS)
     entries = []
     preamble = []
+    errors = []
     for cmd in doc:
         k = cmd['k']
         if k == 'string':
@@ -176,7 +177,18 @@ def denote(doc, person_split):
         elif k == 'entry':
             fields = []
             persons = []
+            seen = set()
+            if cmd['key'].lower() in {e['key'].lower() for e in entries}:
+                # a repeated key (up to case): the fields are still processed (duplicates reported), the entry is dropped
+                repeated = True
+            else:
+                repeated = False
             for name, pieces in cmd['fields']:
+                if name.lower() in seen:
+                    # a repeated field name (up to case): the first occurrence wins, the repeat is reported
+                    errors.append(['DuplicateField', None, 'entry with key %s has a duplicate %s field' % (cmd['key'], name)])
+                    continue
+                seen.add(name.lower())
                 v = normalize_ws(expand(pieces, macros))
                 if name.lower() in PERSON_FIELDS:
                     ps = person_split(v)
@@ -184,8 +196,11 @@ def denote(doc, person_split):
                         persons.append([name, ps])
                 else:
                     fields.append([name, v])
-            entries.append({'key': cmd['key'], 'type': cmd['type'].lower(), 'orig_type': cmd['type'], 'fields': fields, 'persons': persons})
-    return {'entries': entries, 'preamble': preamble, 'errors': [], 'raised': None}
+            if repeated:
+                errors.append(['BibliographyDataError', None, 'repeated bibliography entry: %s' % cmd['key']])
+            else:
+                entries.append({'key': cmd['key'], 'type': cmd['type'].lower(), 'orig_type': cmd['type'], 'fields': fields, 'persons': persons})
+    return {'entries': entries, 'preamble': preamble, 'errors': errors, 'raised': None}
 
 
 # ----------------------------------------------------------------------------------------------
@@ -215,7 +230,7 @@ def gen_value(rng, macros_defined):
     return pieces
 
 
-def gen_doc(rng, max_cmds=5):
+def gen_doc(rng, max_cmds=5, dups=False):
     doc = []
     defined = set()
     used_keys = set()
@@ -239,7 +254,14 @@ def gen_doc(rng, max_cmds=5):
             if rng.random() < 0.4:
                 role = rng.choice(['author', 'Editor', 'AUTHOR'])
                 fields.insert(rng.randint(0, len(fields)), [role, [{'lit': rng.choice(NAMES_PEOPLE)}]])
+            if dups and fields and rng.random() < 0.5:
+                # name a field twice (the layout spells the two occurrences in independent letter cases)
+                n, _v = rng.choice(fields)
+                fields.insert(rng.randint(0, len(fields)), [n, gen_value(rng, defined)])
             doc.append({'k': 'entry', 'type': rng.choice(TYPES), 'key': key, 'fields': fields})
+            if dups and rng.random() < 0.2:
+                doc.append({'k': 'entry', 'type': rng.choice(TYPES), 'key': rng.choice([key, key.upper(), key.lower(), key.swapcase()]),
+                            'fields': [[rng.choice(FIELD_NAMES), gen_value(rng, defined)]]})
     return doc
 
 
